@@ -200,7 +200,18 @@ func c15Gen(r *Rng) c15WS {
 	nv := r.Range(2, 6)
 	for i := 0; i < nv; i++ {
 		v := c15Var{Name: fmt.Sprintf("var%d", i)}
-		switch r.Intn(9) {
+		switch r.Intn(11) {
+		case 9:
+			// a map indexed by a variable, not by a string literal
+			v.Class = pick()
+			v.TypeStr = "table<string, " + v.Class + ">"
+			v.Access = "[keyv]"
+			v.Via = "map-variable-key"
+		case 10:
+			v.Class = pick()
+			v.TypeStr = "table<number, " + v.Class + ">"
+			v.Access = "[1]"
+			v.Via = "map-number-key"
 		case 7:
 			v.Class = names[n-1]
 			v.TypeStr = "AliasMap"
@@ -314,6 +325,7 @@ func runC15(c *Ctx) {
 			col   int
 		}
 		var uses []memberUse
+		emit("local keyv = \"k\"")
 		// declarations: one variable per statement, or runs of 2-3 variables declared by one statement under one
 		// `---@type A, B, C` list (the n-th type belongs to the n-th variable)
 		rd := r.Fork(0x6d756c7469)
